@@ -82,7 +82,7 @@ def script_of(cases):
 
 def run_cases(run, cases, exe, drv):
     """Runs the cases in shards (one process per shard; a crash loses only the shard's tail)."""
-    results = {}   # idx -> dict(load, wf, check, crash)
+    results = {}   # idx -> dict(load, wf, levels, check, crash)
     shard = 40
     import concurrent.futures as cf
 
@@ -108,6 +108,8 @@ def run_cases(run, cases, exe, drv):
                         r["load"] = line
                     elif line.startswith("wf "):
                         r["wf"] = line
+                    elif line.startswith("levels "):
+                        r["levels"] = line
                     elif line.startswith("check "):
                         r["check"] = line
             if rc != 0 or rc2 != 0:
@@ -136,7 +138,12 @@ def judge(run, cases, results):
                 clauses = sorted(set(re.findall(r"([a-z-]+)@", r["wf"] or "")))
                 run.violation("wf:%s:%s" % (kind, ",".join(clauses)), "loaded topology violates WF clause(s) %s: %s" % (clauses, name),
                               script + "\n--- verdict\n" + (r["wf"] or "no verdict") )
-            else:
+            if r.get("levels") != "levels ok":
+                # the model of hwloc_connect_levels disagrees with the implementation: if wf_check is also unhappy
+                # this is a violation with a concrete input (above); otherwise the correspondence is broken
+                run.violation("correspondence:levels:%s" % kind, "model of hwloc_connect_levels/special lists disagrees with the implementation on %s" % name,
+                              script + "\n--- verdict\n" + str(r.get("levels"))[:3000], no_input=(r["wf"] or "").startswith("wf ok"))
+            elif (r["wf"] or "").startswith("wf ok"):
                 run.cov["traces_validated_against_impl"] += 1
             if r["check"] != "check ok":
                 run.violation("topology_check-abort:%s" % kind, "hwloc_topology_check() aborts on %s" % name, script)
